@@ -177,8 +177,8 @@ package iam
 //@   loop @validatePresentationSigner invariant !did(call (Wrapper).validatePresentationAudience #1) || isNilIface(ret(call (Wrapper).validatePresentationAudience #1))
 // the presenter every later presentation is compared with is the one the presentation before it established
 //@   loop @validatePresentationSigner invariant !did(call validatePresentationSigner #1) || (isNilIface(ret(call validatePresentationSigner #1).1) && ret(call validatePresentationSigner #1).0 != nil && same(credentialSubjectID, *ret(call validatePresentationSigner #1).0))
-//@   loop @validateS2SPresentationNonce invariant pexEnvelope != nil && pexConsumer != nil && !did(call (Wrapper).validateS2SPresentationNonce #1) || isNilIface(ret(call (Wrapper).validateS2SPresentationNonce #1))
-//@   loop @VerifyVP invariant pexEnvelope != nil && pexConsumer != nil && !did(call (verifier.Verifier).VerifyVP #1) || isNilIface(ret(call (verifier.Verifier).VerifyVP #1).1)
+//@   loop @validateS2SPresentationNonce invariant !did(call (Wrapper).validateS2SPresentationNonce #1) || isNilIface(ret(call (Wrapper).validateS2SPresentationNonce #1))
+//@   loop @VerifyVP invariant !did(call (verifier.Verifier).VerifyVP #1) || isNilIface(ret(call (verifier.Verifier).VerifyVP #1).1)
 // verified as of now (validAt nil), with trust left to the definition (allowUntrusted) and signatures checked
 //@   call (verifier.Verifier).VerifyVP #1 requires [verified-as-of-now-with-signatures] same(arg(1), presentation) && arg(2) == true && arg(3) == true && arg(4) == nil
 //@   call validatePresentationSigner #1 requires [after-validity-window-check-of-the-same-presentation]
